@@ -243,6 +243,43 @@ def obligations(chk):
     composite_obligations(chk)
     frame_scan(chk)
     none_member_obligations(chk)
+    writer_cache_scan(chk)
+
+
+# ----------------------------------------------------------------------------- the temporal writer keeps no value-keyed cache
+def writer_cache_scan(chk):
+    """The leaf clauses treat serdes.isoformat as a function of its argument *object*.  A cache keyed by the value's equality
+    would break that: temporals that compare and hash equal are written differently (aware datetimes of one instant in two
+    zones; pendulum.duration(months=1) == timedelta(days=30), "P1M" vs "P30D"), so the text would depend on which of them was
+    marshalled first.  Exhaustive scan: neither isoformat nor any package function it reaches is memoised."""
+    import ast
+    from pyvc.source import Source
+    src = Source()
+    mod = "typelib.serdes"
+    defs = {n.name: n for n in src.toplevel(mod) if isinstance(n, ast.FunctionDef)}
+    aliases = {}
+    for n in src.toplevel(mod):          # `g = cache(f)` style aliases count as memoised entry points
+        if isinstance(n, ast.Assign) and isinstance(n.value, ast.Call) and "cache" in ast.unparse(n.value.func) and isinstance(n.targets[0], ast.Name):
+            aliases[n.targets[0].id] = ast.unparse(n.value)
+    seen, todo, memo = set(), ["isoformat"], []
+    while todo:
+        f = todo.pop()
+        if f in seen:
+            continue
+        seen.add(f)
+        if f in aliases:
+            memo.append(f"{f} = {aliases[f]}")
+            continue
+        node = defs.get(f)
+        if node is None:
+            continue
+        if any("cache" in ast.unparse(d) for d in node.decorator_list):
+            memo.append(f)
+        for c in ast.walk(node):
+            if isinstance(c, ast.Call) and isinstance(c.func, ast.Name) and (c.func.id in defs or c.func.id in aliases):
+                todo.append(c.func.id)
+    chk.add(Ob(f"{mod}.isoformat", "the-temporal-writer-and-everything-it-reaches-is-free-of-value-keyed-caches", "ast-scan", [],
+               z3.BoolVal("isoformat" in defs and not memo), {"reached": sorted(seen), "memoised": memo}))
 
 
 # ----------------------------------------------------------------------------- frame scan (same on every call)
